@@ -314,6 +314,13 @@ def decide(prop, tier, seed, cfg, scratch, index, spec_dir, contracts_dir, evide
         else:
             undecided.append(u)
     bottom_bad = [b for b in bottoms if verdicts[b['uid']]['verdict'] != 'discharged']
+    # Kani leaf units of this property (complete proofs of functions Verus cannot ingest)
+    kani_results = [engine.run_kani(k) for k in engine.kani_units(prop)]
+    kani_failed = [k for k in kani_results if k['verdict'] == 'failed']
+    kani_undecided = [k for k in kani_results if k['verdict'] == 'undecided']
+    for k in kani_results:
+        if k['verdict'] == 'discharged' and k.get('backs') in changed_assumed:
+            changed_assumed.remove(k['backs'])  # the assumed contract was re-proved by Kani on the CURRENT text
     hard_global = [g for g in global_errors]
     vres = (res.get('json') or {}).get('verification-results') or {}
     n_verified = vres.get('verified', 0)
@@ -378,6 +385,16 @@ def decide(prop, tier, seed, cfg, scratch, index, spec_dir, contracts_dir, evide
                 })
                 found = bool(witness and witness.get('status') == 'found')
                 violations.append((rp, found, oid))
+    if kani_failed:
+        if witness is None:
+            witness = run_witness(prop, tier, seed, [])
+        for k in kani_failed:
+            oid = 'kani::%s::%s' % (k['name'], (k['failed_checks'] or ['failed'])[0][:80])
+            rp = os.path.join(REPLAY_OUT, '%s-%s.json' % (prop, hashlib.sha1(oid.encode()).hexdigest()[:10]))
+            write_json(rp, {'property': prop, 'obligation': oid, 'unit': {'fn': k.get('backs')}, 'clause': k.get('what'),
+                            'message': 'Kani: ' + '; '.join(k['failed_checks']), 'verifier_output': k['tail'],
+                            'checker_cmd': k['cmd'], 'witness': witness, 'replay_cmd': './check %s --replay %s' % (prop, rp)})
+            violations.append((rp, bool(witness and witness.get('status') == 'found'), oid))
     seen = set()
     for k, u, e in known_hits:
         key = (k.get('what'), u['path'])
@@ -395,7 +412,7 @@ def decide(prop, tier, seed, cfg, scratch, index, spec_dir, contracts_dir, evide
     status = 'held'
     if violations:
         status = 'violation'
-    elif hard_global or undecided or lost or bottom_bad or changed_assumed or (not proved and not known_hits):
+    elif hard_global or undecided or lost or bottom_bad or changed_assumed or kani_undecided or (not proved and not known_hits):
         status = 'undecided'
     elif not verifier_ok and not only_known:
         status = 'undecided'
@@ -433,8 +450,8 @@ def decide(prop, tier, seed, cfg, scratch, index, spec_dir, contracts_dir, evide
                        for e in verdicts[u['uid']]['errors']],
         })
     n_non_assumed = len([u for u in units if not u['assumed']])
-    obligations = sum(1 + u['clauses'] for u in units if not u['assumed'])
-    discharged = sum(1 + u['clauses'] for u in proved)
+    obligations = sum(1 + u['clauses'] for u in units if not u['assumed']) + len(kani_results)
+    discharged = sum(1 + u['clauses'] for u in proved) + sum(1 for k in kani_results if k['verdict'] == 'discharged' and k['complete'])
     samples = []
     for u in (proved[:3] + failed[:2]):
         samples.append({'unit': '%s :: %s' % (u['file'], u['path']), 'verdict': verdicts[u['uid']]['verdict'],
@@ -463,6 +480,8 @@ def decide(prop, tier, seed, cfg, scratch, index, spec_dir, contracts_dir, evide
             'repo_src_sha256': index['repo_src_sha256'],
             'known_findings_matched': [k.get('what') for k, _, _ in known_hits],
             'assumed_functions_modified': changed_assumed,
+            'kani_units': [{kk: k[kk] for kk in ('name', 'verdict', 'failed_checks', 'wall_s', 'cmd', 'backs', 'complete', 'what')}
+                           for k in kani_results],
             'status': status,
             'not_decided': cfg.get('not_decided', []),
             'witness_search': witness,
@@ -483,6 +502,8 @@ def decide(prop, tier, seed, cfg, scratch, index, spec_dir, contracts_dir, evide
         return 1
     if status == 'undecided':
         reasons = []
+        for k in kani_undecided:
+            reasons.append('Kani unit %s undecided (rc %s)' % (k['name'], k['rc']))
         for c_ in changed_assumed:
             reasons.append('function with an ASSUMED contract was modified: %s' % c_)
         for l in lost:
